@@ -7,6 +7,8 @@ PROP = "C02"
 
 
 def run(ctx, rep):
+    from . import c03
+
     for tag, F, E in ctx.each():
         A = balance.analysis(tag, F, E)
         st = atomics.sites(F)
@@ -138,6 +140,7 @@ def run(ctx, rep):
                     rep.bad("R-FUNNEL", b["key"], "does not reach Arc's single %s exactly once: %s" % ("increment" if cls == "CLONE" else "decrement", msg), F.loc(b), tag)
                 else:
                     rep.ok("R-FUNNEL", b["key"], cfg=tag)
+    c03.rule_gate_def(ctx, rep)  # a thread may also become the destroyer by observing `count == 1` through the gate (try_unwrap, into_inner)
     rep.floor("R-ORD-1", 1, "one decrement")
     rep.floor("R-ORD-INC", 1, "one increment")
     rep.floor("R-ORD-2", 1, "one decrement-to-free region")
